@@ -19,7 +19,8 @@ META = {
     "explanation": "bounded SMT check: state, step size, metric, free coefficients and cubic model coefficients symbolic",
     "bounds": {"quick": {"n_steps": "1-2", "dim": "1-2", "implicit": "dim 1, coefficients eps^0..eps^3"},
                "thorough": {"n_steps": "1-3", "dim": "1-2", "implicit": "dim 1-2"}},
-    "outside": "curved constraints end to end (solver contract: C04), SoftAbs/Cholesky/dense Riemannian systems, "
+    "outside": "curved constraints end to end except on the concrete circle problem of the oracle-roots case (solver contract: C04), "
+               "implicit integrators on position-dependent (Riemannian) metrics (series normal forms do not finish), "
                "'up to solver tolerance' idealised to exact arithmetic, implicit integrators beyond O(eps^4), targets "
                "that are not cubic polynomials",
     "stubs": ["LAPACK stubs", "SIN/COS uninterpreted with Pythagoras + parity/addition instances"],
@@ -173,7 +174,8 @@ def cases(tier):
                 G(f"constrained/{solver}/{mkind}/inner{n_inner}", "constrained",
                   {"solver": solver, "mkind": mkind, "n_inner": n_inner, "n": 1}, timeout_s=1500)
     for ik in ("implicit_leapfrog", "implicit_midpoint"):
-        for kind, dim, mkind in [("euclid", 1, "diag")] + ([("scalar", 1, "diag"), ("diagonal", 1, "diag"), ("scalar", 2, "diag")] if th else []):
+        for kind, dim, mkind in [("euclid", 1, "diag")] + ([("gauss", 1, "diag"), ("euclid", 2, "diag")] if th else []):
+            # (position-dependent metrics: the normal forms of the fixed-point iterates do not finish in 1500 s - outside the claim)
             if ik.endswith("steffensen") and kind != "euclid":
                 continue
             G(f"series_rev/{ik}/{kind}/{dim}", "series_reversible", {"ikind": ik, "kind": kind, "dim": dim, "mkind": mkind, "n": 1},
